@@ -11,5 +11,5 @@ python3 tools/gen_guards.py
 mkdir -p build/extract
 ( cd build/extract && timeout 1200 coqc -Q ../../coq RP ../../coq/Extract.v && cp ../../runner/*.ml . \
   && timeout 1200 ocamlfind ocamlopt -w -a -inline 100 rp.mli rp.ml table.ml driver.ml -o ../runner )
-( cd harness && CARGO_TARGET_DIR="$(pwd)/../build/cargo-target" timeout 1800 cargo build --offline )
+( cd harness && CARGO_TARGET_DIR="$(pwd)/../build/cargo-target" timeout 1800 cargo build --offline && CARGO_TARGET_DIR="$(pwd)/../build/cargo-target" timeout 1800 cargo build --offline --release )
 echo "setup done"
